@@ -10,8 +10,6 @@ import (
 
 	"golang.org/x/tools/go/analysis"
 	"golang.org/x/tools/go/analysis/passes/copylock"
-	"golang.org/x/tools/go/analysis/passes/inspect"
-	"golang.org/x/tools/go/ast/inspector"
 	"golang.org/x/tools/go/packages"
 )
 
@@ -19,22 +17,7 @@ import (
 // returns its diagnostics: a value receiver, assignment, argument, result, range value or literal that
 // copies a value holding a sync lock.
 func lockCopies(pkg *packages.Package) []analysis.Diagnostic {
-	var out []analysis.Diagnostic
-	pass := &analysis.Pass{
-		Analyzer:   copylock.Analyzer,
-		Fset:       pkg.Fset,
-		Files:      pkg.Syntax,
-		Pkg:        pkg.Types,
-		TypesInfo:  pkg.TypesInfo,
-		TypesSizes: pkg.TypesSizes,
-		ResultOf:   map[*analysis.Analyzer]interface{}{inspect.Analyzer: inspector.New(pkg.Syntax)},
-		Report:     func(d analysis.Diagnostic) { out = append(out, d) },
-	}
-	if _, err := copylock.Analyzer.Run(pass); err != nil {
-		infra("lock-copy analysis failed on %s: %v", pkg.PkgPath, err)
-	}
-	sort.Slice(out, func(i, j int) bool { return out[i].Pos < out[j].Pos })
-	return out
+	return runAnalyzer(pkg, copylock.Analyzer)
 }
 
 // holdsLock: the named struct type holds a sync.Mutex / sync.RWMutex by value, directly or in a nested struct.
